@@ -20,7 +20,7 @@ RULE = ("each run = one seeded history (6-30 steps) over a seeded pool: every im
         "signed zero / inf, complex, text incl. astral and lone-surrogate code points, bytes, singletons, slices, nested tuples and "
         "frozensets), tuples mixing values and references, instances of subclasses of value types (IntEnum / Enum members, named tuples, "
         "str / int / tuple / frozenset subclasses), containers, functions, classes, modules; steps: send A->B, receive B->A, echo, "
-        "re-receive with the proxy alive or dropped, two asynchronous sends of one object in a row, mutate through the reference, "
+        "re-receive with the proxy alive or dropped, re-lend while the release notice of the previous proxy is in flight, two asynchronous sends of one object in a row, mutate through the reference, "
         "bounce over 2-4 hops, obtain / deliver (classic configuration). non-trivial = >= 1 by-reference item crossed twice or an identity "
         "check ran; distinct = distinct digests")
 STATE_MEASURE = "distinct (step kind, item class, proxy-alive?) tuples exercised"
@@ -29,7 +29,7 @@ REAL = ["rpyc.core.protocol.Connection (_box/_unbox/proxy cache/_netref_factory)
 STUB = ["sockets/poll/time/locks (simulator)"]
 ASSUMPTIONS = ["the classifier 'exact type is one of the plain value types, recursively' is what the statement says", "proxy liveness is observed "
                "through weak references"]
-PROBES = ["c03:re-receive-alive", "c03:re-receive-dropped", "c03:double-async-send", "c03:mutate", "c03:obtain", "c03:deliver", "c03:subclass-by-ref"]
+PROBES = ["c03:re-receive-alive", "c03:re-receive-dropped", "c03:double-async-send", "c03:mutate", "c03:obtain", "c03:deliver", "c03:subclass-by-ref", "c03:relend-crossing-release"]
 D2_SIG = "UnicodeEncodeError on lone surrogate"
 
 PLAIN = (int, bool, float, complex, str, bytes, type(None), type(NotImplemented), type(Ellipsis))
@@ -260,6 +260,12 @@ def run_one(choices, params):
                 raise v
 
         deferred = []
+        meth = {}
+
+        def fetched(name):
+            if name not in meth:
+                meth[name] = getattr(rootbox[0], name)
+            return meth[name]
         held = {}           # B pool index -> proxy A holds
         wr = {}
         nsteps = 6 + w.draw(25)
@@ -276,7 +282,34 @@ def run_one(choices, params):
                                                                                                   traceback.format_exc()[-900:]))
 
         def one_step2(step):
-            op = w.pick(("arg", "res", "echo", "echo-res", "rerecv", "rerecv", "drop", "twice", "mutate", "bounce", "copy"))
+            op = w.pick(("arg", "res", "echo", "echo-res", "rerecv", "rerecv", "drop", "twice", "mutate", "bounce", "copy", "relend"))
+            if op == "relend":
+                # lend an object, let the peer drop it, lend it again before the peer's release notice has been processed
+                # (method proxies fetched beforehand: no attribute round trip in between that would consume the notice)
+                cands = [(kd, x) for kd, x in pools["A"] if not by_value(x) and type(x) is not tuple]
+                if not cands:
+                    return
+                kind, x = cands[w.draw(len(cands))]
+                sink, echo = fetched("sink"), fetched("echo")
+                n0 = len(recv["B"])
+                for rnd in range(1 + w.draw(3)):
+                    sink(x, rnd)
+                    del recv["B"][n0:]
+                sink(x, 9)
+                sim.count("c03:relend-crossing-release")
+                got = recv["B"][-1]
+                judge(x, got, "lent again while the release of the previous proxy was in flight")
+                echo(0)                     # any pending notices are processed now
+                judge(x, got, "proxy kept across the late release notice")
+                r = echo(x)
+                info["idchecks"] += 1
+                if r is not x:
+                    raise core.Violation("echo-not-original", "object %r handed back to its owner arrived as %s" % (x, type(r).__name__))
+                if w.draw(2):
+                    del recv["B"][n0:]
+                del got, r
+                info["states"].add("relend:" + kind)
+                return
             if op == "arg":
                 kind, x = pools["A"][w.draw(len(pools["A"]))]
                 n0 = len(recv["B"])
@@ -465,6 +498,7 @@ def run_one(choices, params):
         for step in range(nsteps):
             one_step(step)
         held.clear()
+        meth.clear()
         for s in ("A", "B"):
             del recv[s][:]
         rootbox.clear()
